@@ -52,6 +52,32 @@ static std::vector<std::string> buildFixedSet()
     p.getRawCmpHeader(hdr);
     p.getRawMessageHeader(hdr + 8);
     out.push_back("Packet raw headers=" + hex(hdr, sizeof hdr, 24));
+    // every field of every class of the C11 / C12 table: written on a default object (a value with bits at both ends of the
+    // field), raw image and read-back recorded; then every getter on an all-ones image
+    for (auto& cd : fld::classes())
+    {
+        auto obj = cd.makeDefault();
+        std::string line = cd.name + ":";
+        for (auto& f : cd.fields)
+        {
+            uint64_t v = f.domain.empty() ? (f.isFloat ? 0x3fc00000ULL : ((f.maxValue() & 0xA5A5A5A5A5A5A5A5ULL) | 1 | (f.maxValue() ^ (f.maxValue() >> 1)))) & f.maxValue() : f.domain[f.domain.size() / 2];
+            f.set(*obj, v);
+            char b[64];
+            snprintf(b, sizeof b, " %s=%llx/%llx", f.name.c_str(), (unsigned long long) v, (unsigned long long) f.get(*obj));
+            line += b;
+        }
+        line += " raw=" + hex(obj->raw(), 64);
+        out.push_back(line);
+        auto ones = cd.makeFromRaw(Bytes(cd.backgroundSize, 0xFF));
+        std::string l2 = cd.name + " (all-ones image):";
+        for (auto& f : cd.fields)
+        {
+            char b[48];
+            snprintf(b, sizeof b, " %s=%llx", f.name.c_str(), (unsigned long long) f.get(*ones));
+            l2 += b;
+        }
+        out.push_back(l2);
+    }
     return out;
 }
 static std::string buildDifference(const std::vector<std::string>& a, const std::vector<std::string>& b)
@@ -67,7 +93,7 @@ static const std::vector<std::string>& gBuiltBeforeMain = *new std::vector<std::
 static void buildAfterMain()
 {
     const std::string& prop = lateReport().prop;
-    if ((prop != "C11" && prop != "C13") || lateReport().shard != 0)
+    if ((prop != "C11" && prop != "C12" && prop != "C13") || lateReport().shard != 0)
         return;
     std::string d = buildDifference(gBuiltBeforeMain, buildFixedSet());
     if (!d.empty())
@@ -95,7 +121,7 @@ static long countCases(Ctx& c)
 }
 static void runCase(Ctx& c, long idx)
 {
-    if (idx == 0 && (c.prop == "C11" || c.prop == "C13"))
+    if (idx == 0 && (c.prop == "C11" || c.prop == "C12" || c.prop == "C13"))
         buildOutsideMainCase(c);
     if ((c.prop == "C12" || c.prop == "C11") && idx >= fld::count(c))
     {
